@@ -19,7 +19,20 @@ type Prop struct {
 
 var registry = map[string]*Prop{}
 
-func register(p *Prop) { registry[p.ID] = p }
+// curProg is the program under analysis (role tables are per program).
+var curProg *eng.Prog
+
+func register(p *Prop) {
+	orig := p.Run
+	p.Run = func(c *eng.Ctx, tier string) {
+		if curProg != c.P {
+			curProg = c.P
+			initLockKeys(c.P)
+		}
+		orig(c, tier)
+	}
+	registry[p.ID] = p
+}
 
 // Get returns the property's check.
 func Get(id string) *Prop { return registry[id] }
